@@ -75,6 +75,7 @@ Fixpoint defined_prefix {A} (l : list (option A)) : list A * bool (* all defined
 Fixpoint sem (q : senv) (sel : option nat) (stack : list value) (e : expr) {struct e} : option value :=
   match e with
   | EInt z => Some (VInt z)
+  | EDouble f => Some (VFloat f)
   | EBytes b => Some (VBytes b)
   | EBool b => Some (VBool b)
   | EFilesize => option_map (fun n => VInt (Z.min (Z.of_N n) i64_max)) (q_filesize q)
@@ -180,7 +181,7 @@ Fixpoint wf_expr (ext : list value) (nvars nprev : nat) (e : expr) {struct e} : 
   let wv (v : option nat) := match v with Some i => Nat.ltb i nvars | None => true end in
   let wf := wf_expr ext nvars nprev in
   match e with
-  | EInt _ | EBytes _ | EBool _ | EFilesize | EExt _ | EBound _ => true
+  | EInt _ | EBytes _ | EBool _ | EDouble _ | EFilesize | EExt _ | EBound _ => true
   | EReadInt _ a | EUn _ a | EDefined a => wf a
   | ECount v | EVar v => wv v
   | ECountIn v a b | EVarIn v a b => wv v && wf a && wf b
